@@ -98,17 +98,18 @@ func limitZSetMembers(mems []*ZSetMember, offset int, count int) []*ZSetMember {
 }
 
 func (zset *ZSet) Range(start int, stop int, opt ZRangeOption) []*ZSetMember {
+	// With REV the indexes count from the highest score: the window is taken from the reversed order.
+	ordered := zset.members
+	if opt.REV {
+		ordered = reverseZSetMembers(append([]*ZSetMember{}, zset.members...))
+	}
+
 	mems := []*ZSetMember{}
-	if start, stop, ok := clampRange(len(zset.members), start, stop); ok {
-		mems = append(mems, zset.members[start:stop+1]...)
+	if start, stop, ok := clampRange(len(ordered), start, stop); ok {
+		mems = append(mems, ordered[start:stop+1]...)
 	}
 
-	mems = limitZSetMembers(mems, opt.Offset, opt.Count)
-	if !opt.REV {
-		return mems
-	}
-
-	return reverseZSetMembers(mems)
+	return limitZSetMembers(mems, opt.Offset, opt.Count)
 }
 
 func (zset *ZSet) RangeByScore(min float64, max float64, opt ZRangeOption) []*ZSetMember {
